@@ -65,6 +65,22 @@ CONTRACTS = {
                     'self._numvar == ite(check, zmax(old(self._numvar), maxabs(clause)), old(self._numvar))'] + WF,
         'ensures_on_raise': ['self._numvar == old(self._numvar)'],
     },
+    (B, 'BaseCNF.add_clauses_from'): {
+        # appends exactly the given clauses, in order; refuses (ValueError) iff checking and some clause has a zero literal
+        'property': ['C10', 'C19', 'C05'],
+        'params': {'clauses': 'cseq', 'check': 'bool'},
+        'requires': WF + ['implies(not check, cmaxabs(clauses) <= self._numvar and not chaszero(clauses))'],
+        'raises': {'ValueError': 'check and chaszero(clauses)'},
+        'modifies': ['self._clauses', 'self._numvar'],
+        'loops': {0: {'ghost_at_entry': {'C0': 'self._clauses', 'S': '_iter'}, 'ghost_at_entry_vals': {'NV0': 'self._numvar'},
+                      'inv': ['self._clauses == capp(C0, ctake(S, _it))',
+                              'self._numvar == ite(check, zmax(NV0, cmaxabs(ctake(S, _it))), NV0)',
+                              'implies(check, not chaszero(ctake(S, _it)))',
+                              'S == clauses'] + WF,
+                      'modifies_objects': ['self'], 'modifies_fields': {'self': ['_clauses', '_numvar']}}},
+        'ensures': ['self._clauses == capp(old(self._clauses), clauses)',
+                    'self._numvar == ite(check, zmax(old(self._numvar), cmaxabs(clauses)), old(self._numvar))'] + WF,
+    },
     (L, 'CNFLinear.add_linear'): dict(
         builder(CMP('op')),
         params={'lits': 'iseq', 'op': 'str', 'constant': 'int', 'check': 'bool'},
